@@ -128,6 +128,24 @@ def job(args):
     return out
 
 
+def run_jobs(args, nproc):
+    """one fresh interpreter per proof script (exactly the conditions of a standalone run: solver behaviour depends on
+    process state such as ast ids), at most nproc at a time"""
+    import concurrent.futures as cf
+
+    def one(a):
+        p = subprocess.run([sys.executable, os.path.abspath(__file__), "--job", json.dumps(a)], capture_output=True, text=True,
+                           env=dict(os.environ, VERIF_TIER=a[1], SHANGRLA_REPO=a[2]))
+        try:
+            return json.loads(p.stdout[p.stdout.index("@@JOB@@") + 7:])
+        except Exception:
+            return {"script": a[0], "props": [], "paths": 0, "path_ends": {}, "wall": 0, "error": ("crash", (p.stderr or p.stdout)[-1500:]),
+                    "dropped": {}, "vacuity": [], "results": [], "counterexamples": [], "total_wall": 0}
+
+    with cf.ThreadPoolExecutor(max_workers=nproc) as ex:
+        return list(ex.map(one, args))
+
+
 def load_known():
     path = os.path.join(ROOT, "known_findings.txt")
     findings, fixed = [], []
@@ -172,8 +190,7 @@ def run_property(prop, tier):
         return 3
     from contracts import meta as META
     nproc = min(16, len(scripts), os.cpu_count() or 1)
-    with mp.Pool(nproc) as pool:
-        outs = pool.map(job, [(d["name"], tier, REPO) for d in scripts], chunksize=1)
+    outs = run_jobs([(d["name"], tier, REPO) for d in scripts], nproc)
     findings, fixed = load_known()
     violations, known_lines, undecided, errors = [], [], [], []
     nobl = ndis = 0
@@ -312,6 +329,10 @@ def do_replay(path):
 
 def main():
     a = sys.argv[1:]
+    if a and a[0] == "--job":
+        out = job(tuple(json.loads(a[1])))
+        sys.stdout.write("@@JOB@@" + json.dumps(out, default=str))
+        return
     if a and a[0] == "--replay":
         sys.exit(do_replay(a[1]))
     prop = a[0]
